@@ -21,6 +21,7 @@ class Hooks:
     def __init__(self):
         self.point = lambda label, obj=None: None      # yield / cancel points
         self.io = None                                  # IoPlan or None
+        self.crash = lambda site: _real_os._exit(137)   # injected process death (kill -9 / power loss) at a seam
 
 
 HOOKS = Hooks()
@@ -227,6 +228,8 @@ def install_table_seam():
             f = plan.take("table_write")
             if f is not None:
                 plan.fired.append({"site": "table_write", "kind": f["kind"], "path": str(file)})
+                if f["kind"] == "CRASH":
+                    HOOKS.crash("table_write")      # dies before the file is opened: the cache file stays as it was
                 if f.get("sticky"):
                     plan.faults.append(f)
                 raise _oserror(f["kind"], str(file))
